@@ -68,6 +68,15 @@ CLAIMED = {
              'and malformed entries.',
         note=PURE_NOTE + ' Payload fidelity itself is encoding/json\'s (assumed, checked differentially). Isolation of bad entries at system level: family persist.',
         technique='Coq round-trip proof of the envelope codec + differential test against extracted model', ref='5 C12'),
+    'C14': dict(
+        text='Machine-checked: the status logic of every lifecycle call, as coded, returns the documented error and leaves the documented status '
+             '(Initiated; Running <-> Paused; Stopped; Restart back to Running; Bind starts a fresh worker and otherwise changes nothing; a cancelled '
+             'context stops the worker for good), hence so does every call sequence of any length. The model is replayed against recorded '
+             '(call, error, Status) sequences of the real library run to rest between calls under the controlled scheduler; a worker reporting Running must '
+             'process a probe job.',
+        note='Sequential model (calls one after the other, system at rest in between); concurrent lifecycle callers are explored and monitored but not covered by the theorem. '
+             'Trusted: Coq kernel, extraction, rewriter + shim runtime, harness.',
+        technique='Coq refinement of a call-level state machine to the documented machine + replay of recorded call sequences', ref='5 C14'),
     'C15': dict(
         text='Machine-checked, for every number of queues and every length vector: RoundRobin picks the next non-empty queue in cyclic '
              'binding order and advances the cursor past it; two queues that stay non-empty differ by at most one dispatch; a non-empty '
@@ -82,6 +91,13 @@ CLAIMED = {
              'taken by clients at arbitrary points are checked for monotonicity on every explored history.',
         note=CONC_NOTE,
         technique='Coq inductive invariant over a per-job transition system + lock-step trace validation', ref='5 C16'),
+    'C17': dict(
+        text='Machine-checked: a FIFO queue\'s Len() equals the number of pending elements in every reachable state (one length word updated under the queue lock: '
+             'never negative, never above accepted); the worker\'s NumPending is the sum over its queues; a batch\'s NumPending is the number of unfinished items. '
+             'Differential tests tie Len of both queue kinds and of the manager to the code; counts and metrics sampled by clients at arbitrary points (bounds) and at '
+             'rest (exactness) are monitored on every explored history.',
+        note='Trusted: Coq kernel, extraction, Go recorders, rewriter + shim runtime, harness. NumProcessing <= limit rests on C02; metrics are monitored, not modelled.',
+        technique='Coq exactness proofs for the length counters + differential tests + sampled-history monitors', ref='5 C17'),
 }
 
 NA_REASON = 'check not built yet in this round (work in progress; see DESIGN.md section 9 for the order of work)'
